@@ -82,8 +82,8 @@ def run_unit(prop, u, tier, scratch, keep=False):
         tu = ['#include "cv_prelude.h"', '#include "u_decl.h"']
         for d in u.get('defines', []): tu.insert(0, '#define %s' % d)
         tu.insert(0, '#define CV_TIER_%s 1' % tier.upper())
-        for s in u.get('spec', []): tu.append('#include "%s"' % os.path.join(VERIF, 'specs', s))
         for l in u.get('lib', ['rt_core.c', 'rt_atomic_seq.c']): tu.append('#include "%s"' % os.path.join(LIB, l))
+        for s in u.get('spec', []): tu.append('#include "%s"' % os.path.join(VERIF, 'specs', s))
         tu.append('#include "u_body.c"')
         open(os.path.join(wd, 'tu.c'), 'w').write('\n'.join(tu) + '\n')
         harness = u['harness']
@@ -117,7 +117,7 @@ def run_unit(prop, u, tier, scratch, keep=False):
         if u.get('unwindset'): cmd += ['--unwindset', ','.join(u['unwindset'])]
         if u.get('solver_flag'): cmd += [u['solver_flag']]
         if u.get('object_bits'): cmd += ['--object-bits', str(u['object_bits'])]
-        tmo = u.get('timeout', {}).get(tier, 600) if isinstance(u.get('timeout'), dict) else u.get('timeout', 600 if tier == 'quick' else 3600)
+        tmo = u.get('timeout', {}).get(tier, 600) if isinstance(u.get('timeout'), dict) else u.get('timeout', 240 if tier == 'quick' else 3600)
         r = sh(cmd, cwd=wd, timeout=tmo, mem_gb=u.get('mem_gb', 16))
         res['cmds'].append(' '.join(cmd))
         res['solver_wall'] = r['wall']
